@@ -2371,10 +2371,12 @@ class Statements(Sequence, Immutable):
                 raise KeyError(f"Could not find symbol {symbol}")
         g = self._create_dependency_graph()
         symbs = self[i].rhs_symbols
-        if i == 0 or not g:
-            # Special case for models with only one statement or no dependent statements
+        if i not in g:
+            # Special case for statements without dependencies on other statements
             return symbs
-        for j, _ in nx.bfs_predecessors(g, i, sort_neighbors=lambda x: reversed(sorted(x))):
+        # NOTE: Substitute definitions backwards in statement order so that a
+        # symbol introduced by a later definition is resolved by an earlier one
+        for j in sorted(nx.descendants(g, i), reverse=True):
             statement = self[j]
             if isinstance(statement, Assignment):
                 symbs -= {statement.symbol}
